@@ -13,7 +13,7 @@
      lay_wf vs lay         lay is a possible stored layout of the vectors vs (any order, stored zeros allowed)
      subsample n axis by_id with_replacement lay draws t = (receiver afterwards, result)            *)
 From Coq Require Import List Arith ZArith Bool Permutation.
-From BiomV Require Import Base.Tree Base.ListUtil Base.Matrix Model.Table Model.Filter Model.Stored
+From BiomV Require Import Base.Tree Base.ListUtil Base.Matrix Model.Table Model.Orient Model.Filter Model.Stored
   Model.Subsample Proofs.StoredProofs Proofs.SubsampleProofs.
 Import ListNotations.
 
@@ -68,7 +68,8 @@ Print Assumptions kernel_is_walk_per_segment.
    the receiver is unchanged; exactly the vectors with total >= n are retained, in order; each
    retained vector sums to exactly n; every cell is between 0 and the original cell; exactly the
    other-axis vectors left all-zero (over the retained vectors) are dropped; metadata travels with
-   its id and the type is kept; the result is coherent. *)
+   its id (md_view: as a reader sees it, None and the empty mapping identified, which is all the
+   closing _cast_metadata of Table.filter can change) and the type is kept; the result is coherent. *)
 Theorem subsample_table_spec : forall n a lay draws t,
   wf t -> nonneg_table t -> 1 <= n -> lay_wf (axis_vecs a t) lay ->
   draws_ok n (map zsum (axis_vecs a t)) draws ->
@@ -85,8 +86,8 @@ Theorem subsample_table_spec : forall n a lay draws t,
   axis_vecs (other a) t' =
     filter (fun c => negb (all_zero c))
            (axis_vecs (other a) (drop_nonpositive a (kernel_table_wo n a lay draws t))) /\
-  (forall x, In x (ids a t') -> md_of a t' x = md_of a t x) /\
-  (forall y, In y (ids (other a) t') -> md_of (other a) t' y = md_of (other a) t y) /\
+  (forall x, In x (ids a t') -> md_view a t' x = md_view a t x) /\
+  (forall y, In y (ids (other a) t') -> md_view (other a) t' y = md_view (other a) t y) /\
   ttype t' = ttype t.
 Proof.
   intros n a lay draws t W NN Hn HL HD. split; [apply subsample_receiver_unchanged|].
@@ -112,8 +113,8 @@ Theorem with_replacement_spec : forall n a lay draws t,
     (forall o s v, cell t' o s = Some v -> (0 <= v)%Z /\ (v <> 0%Z -> cell t o s <> Some 0%Z)) /\
     Forall (fun c => all_zero c = false) (axis_vecs (other a) t') /\
     (exists m2, ids (other a) t' = select m2 (ids (other a) t)) /\
-    (forall x, In x (ids a t') -> md_of a t' x = md_of a t x) /\
-    (forall y, In y (ids (other a) t') -> md_of (other a) t' y = md_of (other a) t y) /\
+    (forall x, In x (ids a t') -> md_view a t' x = md_view a t x) /\
+    (forall y, In y (ids (other a) t') -> md_view (other a) t' y = md_view (other a) t y) /\
     ttype t' = ttype t.
 Proof.
   intros n a lay draws t W NN Hn HL HD. split; [apply subsample_receiver_unchanged|].
@@ -163,8 +164,8 @@ Theorem by_id_spec : forall n a shuffled t,
       select (map (fun c => negb (all_zero c))
                   (axis_vecs (other a) (filter_mask (map (fun i => zmem i (firstn n shuffled)) (ids a t)) a t)))
              (ids (other a) t) /\
-    (forall x, In x (ids a t') -> md_of a t' x = md_of a t x) /\
-    (forall y, In y (ids (other a) t') -> md_of (other a) t' y = md_of (other a) t y) /\
+    (forall x, In x (ids a t') -> md_view a t' x = md_view a t x) /\
+    (forall y, In y (ids (other a) t') -> md_view (other a) t' y = md_view (other a) t y) /\
     ttype t' = ttype t.
 Proof.
   intros n a shuffled t W NN HP. split; [apply subsample_receiver_unchanged|].
